@@ -17,6 +17,20 @@ PROP = {
         "GunYu.Props.C05.disk_reader_progress",
         "GunYu.Props.C05.disk_valid_iff_readable",
         "GunYu.Props.C05.disk_snapshot_offered_iff_complete",
+        "GunYu.Props.C05.mem_invariant",
+        "GunYu.Props.C05.mem_invariant_settled",
+        "GunYu.Props.C05.mem_history_records_appends",
+        "GunYu.Props.C05.mem_refines",
+        "GunYu.Props.C05.mem_index_contiguous",
+        "GunYu.Props.C05.mem_reader_delivers",
+        "GunYu.Props.C05.mem_reader_delivers_stmt_holds",
+        "GunYu.Props.C05.mem_valid_iff_readable",
+        "GunYu.Props.C05.mem_open_stream_reader",
+        "GunYu.Props.C05.mem_snapshot_offset_needs_handover",
+        "GunYu.Props.C05.mem_snapshot_offered_complete_or_live",
+        "GunYu.Props.C05.mem_snapshot_reader_delivers",
+        "GunYu.Props.C05.mem_snapshot_shape",
+        "GunYu.Props.C05.mem_full_invariant_settled",
         "GunYu.Props.C05.mem_refuses_discontinuous",
         "GunYu.Props.C05.mem_accepted_writer_is_continuous",
         "GunYu.Props.C05.mem_gc_keeps_contiguous_suffix",
@@ -80,9 +94,14 @@ PROP = {
         "is a correspondence DIFF (tie failure, no-failing-input-found), stricter than the property by design",
     ],
     "partial": [
-        "mem_reader_delivers_stmt (global refinement of the memory backend over operation lists) is stated, not proved; proved for memory are the step-level theorems "
-        "(each about ONE step from an arbitrary state; nothing is proved about sequences of steps): refusal of discontinuous writers, collector removes only a closed unreferenced prefix, snapshot offered iff replayable + "
-        "finishRdb/collector make it unreplayable when incomplete, copy steps deliver exactly the held segment's bytes, reset empties the index and successor lookup is by identity",
+        "memory backend: the global theorems (mem_invariant, mem_refines, mem_reader_delivers, mem_valid_iff_readable, mem_snapshot_offered_complete_or_live, "
+        "mem_history_records_appends, mem_snapshot_reader_delivers) hold for ALL operation lists with NO hypothesis; what they do NOT say: (a) the model has no ghost for the "
+        "snapshot's SOURCE bytes: proved is that a copy loop replaying the offered snapshot wrote exactly the first pos bytes the snapshot HOLDS, in order, and that an offered "
+        "snapshot has size <= written = bytes held, contiguous from 0; that the bytes held are the bytes received is the append step's definition + correspondence + monitor; "
+        "(b) nothing is claimed of a copy loop after it returned or after its segment left the index (it ends or fails: step facts mem_stale_reader_has_no_successor, "
+        "mem_reset_empties_index — that it cannot deliver OTHER bytes afterwards follows from mem_reader_delivers only while it holds an indexed segment; for heap segments "
+        "(immutable, closed) it is the correspondence); (c) progress (a reader reaches the tail) is not proved, as on disk; (d) the consumer side (pipe, bufio) is modelled "
+        "(buf/bbuf) but `out` is what the copy loop wrote to the pipe — that the consumer reads exactly `out` is the consume step's definition + correspondence",
         "disk refinement is proved as `abs s = suffix of the written history from abs.base` in every reachable state (disk_refines) + the per-op history lemma; "
         "a separate abstract transition system with a simulation relation is not defined",
         "findings of the real-goroutine phases (concurrent phase, invalidation, snapshot race, memory stress) are not replayable inputs: the replay names backend, scenario and seed only",
@@ -97,11 +116,13 @@ MANIFEST = {
             "bytes appended at [start,pos), snapshot readers exactly the snapshot bytes, closed/invalidated readers fail and never deliver again, resets and writer "
             "replacement / id switch close readers and nothing else does, a valid reader can always make a step, held range contiguous, IsValidOffset <-> GetReader finds data, "
             "snapshot offered <-> complete or being written and its offset lies in a held segment, collector drops only an unreferenced prefix / snapshot. "
-            "Memory: NO global byte-faithfulness theorem (correspondence + monitor only); proved are one-step facts for every state (collector removes only a closed "
-            "unreferenced prefix, finishRdb keeps only complete snapshots, collected snapshot not offered, successor lookup by identity). Tie: generated op sequences on the real Storer and the real MemoryChannel (synctest), every answer, "
+            "Memory (MemoryChannel): the same is proved GLOBALLY for ALL operation lists with no hypothesis (invariant MemInv, preserved by every operation incl. capacity-blocked "
+            "appends, retries, collector passes inside appends, resets, every single copy-loop iteration): the cache holds the suffix of the written history from its base, every "
+            "copy loop holding an indexed segment wrote to its pipe exactly the bytes appended at [start,pos), valid <-> a reader can be opened (the snapshot's own offset only while "
+            "the log starts there), an offered snapshot is live or completely received with every received byte held, and a copy loop replaying it wrote exactly the first pos bytes it holds. Tie: generated op sequences on the real Storer and the real MemoryChannel (synctest), every answer, "
             "reference count and byte compared with the model and with independent bookkeeping.",
     "note": "trusted: Lean kernel, harness, synctest quiescence; assumptions: callers' protocol for disk writers (continuity; no writer open at an id switch); "
-            "partial: memory backend has step facts only (global refinement stated, not proved), one-step progress instead of a catch-up theorem. "
+            "partial: no ghost for the snapshot's source bytes in the memory model, one-step progress instead of a catch-up theorem. "
             "Defects fixed: D14 (memory+disk), D17, D20-D30 (see known_findings.d/C05.json; D27 = re-scan with open readers at every source reconnect, D28 = reset dead-lock with two tailing readers, D29 = snapshot reader open vs commit race, D30 = memory collector breaks the snapshot->log hand-over, fixed by c06).",
     "technique": "Lean 4 proof (invariant over arbitrary operation lists, step-level refinement) + differential correspondence on generated operation sequences",
 }
